@@ -123,6 +123,20 @@ pub fn shape(name: &str, r: &mut Rng) -> Shape {
             p_terminal: 0.15,
             ..base
         },
+        // large and almost perfectly informed: a hundred or more infosets per player
+        "manyinfosets" => Shape {
+            name: "manyinfosets",
+            max_depth: 9,
+            max_nodes: 700 + r.usize_in(0, 500),
+            p_terminal: 0.04,
+            p_chance: 0.08,
+            min_branch: 2,
+            max_branch: 3,
+            p_single_action: 0.0,
+            obs_action: [0.97, 0.97],
+            obs_chance: [0.95, 0.95],
+            ..base
+        },
         "degenerate" => Shape {
             name: "degenerate",
             max_depth: 5,
@@ -289,7 +303,8 @@ pub fn generate(r: &mut Rng, sh: &Shape) -> MNode {
 /// A generated game of a swarm-chosen shape that has at least `min_infosets` decision infosets.
 pub fn game(r: &mut Rng, shapes: &[&str], min_infosets: usize) -> (MNode, &'static str) {
     loop {
-        let name = *r.pick(shapes);
+        // (one game in fifty is of the large, many-infosets shape whatever the check asked for)
+        let name = if shapes.len() > 1 && r.coin(0.02) { "manyinfosets" } else { *r.pick(shapes) };
         let sh = shape(name, r);
         let g = generate(r, &sh);
         if g.stats().n() >= min_infosets {
